@@ -119,18 +119,38 @@ func casesEngines(c *caseCtx) {
 	special := append(cramped(c, c.scale(40, 400)), epEvasions(c, 10)...)
 	special = append(special, queenStars(c, c.scale(60, 600))...)
 	special = append(special, pinLines(c, c.scale(20, 200))...)
-	total := len(curatedFENs) + len(special) + c.scale(120, 3000)
+	// twins: the same position reached by walking king and rook by hand and by castling (the castled
+	// flag differs; nothing else): evaluated one after the other, each also against its colour mirror
+	type twin struct {
+		f     string
+		moves []string
+	}
+	twins := []twin{
+		{"4k3/pppppppp/8/8/8/8/PPPPP1PP/4K2R w K - 0 1", strings.Fields("h1f1 e8d8 e1f2 d8e8 f2g1")},
+		{"4k3/pppppppp/8/8/8/8/PPPPP1PP/4K2R w K - 0 1", strings.Fields("e1g1")},
+		{"r3k3/ppp1pppp/8/8/8/8/PPPPPPPP/4K3 b q - 0 1", strings.Fields("e8c8")},
+		{"r3k3/ppp1pppp/8/8/8/8/PPPPPPPP/4K3 b q - 0 1", strings.Fields("a8d8 e1d1 e8d7 d1e1 d7c8")},
+		{"rnbqk2r/pppp1ppp/5n2/2b1p3/2B1P3/5N2/PPPP1PPP/RNBQK2R w KQkq - 4 4", strings.Fields("e1g1 e8g8")},
+		{"rnbqk2r/pppp1ppp/5n2/2b1p3/2B1P3/5N2/PPPP1PPP/RNBQK2R w KQkq - 4 4", strings.Fields("h1f1 h8f8 e1e2 e8e7 e2e1 e7e8 e1e2 e8e7 e2f2 e7f7 f2g1 f7g8 f1e1 f8e8 e1f1 e8f8")},
+	}
+	total := len(curatedFENs) + len(special) + len(twins) + c.scale(120, 3000)
 	for g := 0; g < total; g++ {
 		// every curated position as it stands (e.p. targets, castling rights), then short games from the
 		// start or a curated / random position
 		f := fen.Initial
 		plies := c.r.Intn(14)
+		var fixedMoves []string
 		if g < len(curatedFENs) {
 			f = curatedFENs[g]
 			plies = 0
 		} else if g < len(curatedFENs)+len(special) {
 			f = special[g-len(curatedFENs)]
 			plies = 0
+		} else if g < len(curatedFENs)+len(special)+len(twins) {
+			tw := twins[g-len(curatedFENs)-len(special)]
+			f = tw.f
+			plies = 0
+			fixedMoves = tw.moves
 		} else {
 			switch c.r.Intn(4) {
 			case 0:
@@ -146,6 +166,21 @@ func casesEngines(c *caseCtx) {
 		}
 		cur := state{pos, turn}
 		var moves []string
+		for _, ms := range fixedMoves {
+			found := false
+			for _, m := range legalMoves(cur.pos, cur.turn) {
+				if uciMove(m) == ms {
+					next, _ := cur.pos.Move(m)
+					moves = append(moves, ms)
+					cur = state{next, cur.turn.Opponent()}
+					found = true
+					break
+				}
+			}
+			if !found {
+				break
+			}
+		}
 		for k := 0; k < plies; k++ {
 			ms := legalMoves(cur.pos, cur.turn)
 			if len(ms) == 0 {
